@@ -98,6 +98,11 @@ def _shows_something(r, mode):
 
 def run_case(case):
     rng = random.Random(case['seed'])
+    if case['seed'] % 2:
+        seams.install_registry()        # every second directory is shown with a message registry installed
+    else:
+        import pel.peltool.src as _src
+        _src.registry.pels = []
     base = seams.scratch_dir('c09')
     d, dj, alone, outd = (os.path.join(base, x) for x in ('d', 'dj', 'alone', 'out'))
     n = rng.choice([1, 2, 3, 5, 8])
